@@ -348,6 +348,10 @@ class Tokenizer(object):
                     token = token.encode('iso-8859-1').decode()
                 except: # Prevent issue with tokens like '"\\x80"'.
                     pass
+                # An escape such as \ud800 leaves a lone surrogate: that is
+                # not text and can't be sent anywhere.  UnicodeEncodeError is
+                # a ValueError, which tokenize() reports as a syntax error.
+                token.encode('utf8')
         return token
 
     def _insideBrackets(self, lexer):
